@@ -14,6 +14,9 @@ CONSTANTS
   Hook = FALSE
   Steer = TRUE
   Emit = TRUE
+  Sizes = {1}
+  Targets = {}
+  Canon = FALSE
 INVARIANTS PrintBad
 VIEW View
 CHECK_DEADLOCK FALSE
